@@ -103,7 +103,8 @@ type Execution struct {
 }
 
 type Sched struct {
-	threads  []*thread
+	threads  []*thread // every thread ever created (ids)
+	live     []*thread // threads that have not finished: what the scheduler iterates over
 	cur      *thread
 	prefix   []int
 	x        *Execution
@@ -181,6 +182,7 @@ func (s *Sched) newThread(site string) *thread {
 	}
 	t.hist = t.name
 	s.threads = append(s.threads, t)
+	s.live = append(s.live, t)
 	return t
 }
 
@@ -208,6 +210,12 @@ func (s *Sched) threadExit(t *thread) {
 		}
 	}
 	t.done = true
+	for i, th := range s.live {
+		if th == t {
+			s.live = append(s.live[:i], s.live[i+1:]...)
+			break
+		}
+	}
 	if t.id == 0 {
 		s.x.MainFinished = true
 		for _, th := range s.threads {
@@ -318,7 +326,7 @@ func (s *Sched) enabled(t *thread) bool {
 // partner finds the longest-waiting other thread blocked on the complementary operation.
 func (s *Sched) partner(c *chanCore, kind opKind, self *thread) *thread {
 	var best *thread
-	for _, th := range s.threads {
+	for _, th := range s.live {
 		if th == self || th.done || th.handed {
 			continue
 		}
@@ -333,6 +341,10 @@ func (s *Sched) partner(c *chanCore, kind opKind, self *thread) *thread {
 
 func (t *thread) waitSeq() int { return t.nops }
 
+// maxThreads: an execution that creates more threads than any harness body can need is a runaway
+// (a loop that never advances its cursor keeps spawning workers); it gets the verdict, not a hang.
+const maxThreads = 400
+
 // pick computes the enabled set in canonical order (running thread first if enabled, then
 // ascending ids), consults the choice sequence and returns the next thread (nil: none).
 func (s *Sched) pick(running *thread) *thread {
@@ -342,7 +354,7 @@ func (s *Sched) pick(running *thread) *thread {
 		en = append(en, running)
 		runEn = true
 	}
-	for _, th := range s.threads {
+	for _, th := range s.live {
 		if th != running && s.enabled(th) {
 			en = append(en, th)
 		}
@@ -351,7 +363,7 @@ func (s *Sched) pick(running *thread) *thread {
 		return nil
 	}
 	s.x.Steps++
-	if s.x.Steps > s.opts.MaxSteps {
+	if s.x.Steps > s.opts.MaxSteps || len(s.threads) > maxThreads {
 		s.x.Verdict = "runaway"
 		return nil
 	}
